@@ -166,6 +166,21 @@ func ruleUnknownStream(p *Prog, r *Out) {
 			return true
 		}
 		id, last := c.L.T["fr.Stream()"], c.L.T["sc.lastID"]
+		// the order of ids is judged by the highest id a request has named
+		// (highID, raised by refusals too), which is stored only after this
+		// test: at or below it is out of order
+		if hi, ok := c.L.T["highID"]; ok && id == 1 && hi == -1 && c.L.C == 0 {
+			ga := false
+			inspectCalls(ifs.Body, func(cl *ast.CallExpr) {
+				if p.calleeOf(cl) == "(*serverConn).writeGoAway" {
+					ga = true
+				}
+			})
+			if ga {
+				lower = true
+			}
+			return true
+		}
 		switch {
 		case id == -1 && last == 1 && c.L.C == 1: // Stream() > lastID
 			// inside the RST_STREAM branch, body sends GOAWAY
@@ -183,16 +198,6 @@ func ruleUnknownStream(p *Prog, r *Out) {
 			})
 			if under && ga {
 				rstIdle = true
-			}
-		case id == 1 && last == -1 && c.L.C == 1: // Stream() < lastID
-			ga := false
-			inspectCalls(ifs.Body, func(cl *ast.CallExpr) {
-				if p.calleeOf(cl) == "(*serverConn).writeGoAway" {
-					ga = true
-				}
-			})
-			if ga {
-				lower = true
 			}
 		case id == 1 && last == -1 && c.L.C == 0: // Stream() <= lastID
 			inspectCalls(ifs.Body, func(cl *ast.CallExpr) {
@@ -256,7 +261,7 @@ func ruleUnknownStream(p *Prog, r *Out) {
 	})
 	r.check(selfDep, "PRIORITY on an unknown stream that depends on itself is refused", pos, "if parent == own id { GOAWAY(PROTOCOL_ERROR); leave }", "a PRIORITY frame on a stream that is not in the table is ignored even when it names its own stream as the parent: RFC 7540 s5.3.1 makes that an error of type PROTOCOL_ERROR")
 	r.check(rstIdle, "RST_STREAM on an idle id only (id > lastID)", pos, "fr.Stream() > sc.lastID (and not remembered as closed) -> GOAWAY", "the test that makes RST_STREAM on an unknown stream a connection error is no longer exactly `id > lastID` (possibly after asking the closed-stream memory): a late RST_STREAM for the most recent, already finished stream kills the connection (RFC 7540 s5.1: ignored on closed streams)")
-	r.check(lower, "lower-than-latest is strict (id < lastID)", pos, "fr.Stream() < sc.lastID -> GOAWAY", "the 'stream id lower than the latest' refusal is no longer exactly `id < lastID`")
+	r.check(lower, "lower-than-latest is exact (id <= highID)", pos, "fr.Stream() <= highID -> GOAWAY", "the 'stream id lower than the latest' refusal is no longer exactly `id <= highID`, the highest id a request has named so far")
 	r.check(lookup, "table lookup for ids up to lastID", pos, "fr.Stream() <= sc.lastID -> Search", "the stream table is searched under a condition on lastID other than `id <= lastID` (or not at all): ids at or below the highest accepted one must be found, or they are created a second time")
 }
 
@@ -2483,7 +2488,7 @@ func ruleLateAndGraceful(p *Prog, r *Out) {
 			return true
 		}
 		c, okc := p.canonCmp(ifs.Cond, nil)
-		if !okc || c.Op != "le" || !c.L.eq(Lin{T: map[string]int64{"fr.Stream()": 1, "sc.lastID": -1}, C: 1}) {
+		if !okc || c.Op != "le" || !c.L.eq(Lin{T: map[string]int64{"fr.Stream()": 1, "highID": -1}, C: 0}) {
 			return true
 		}
 		for i, s := range ifs.Body.List {
